@@ -323,11 +323,42 @@ def _test_value(test, last: str, assume_global: bool = True, fn=None) -> Optiona
     constants are folded (names of tuples / strings).  None = not decided."""
     if fn is not None:
         from ..dataflow import expand_aliases
-        test = _fold_constants(fn, expand_aliases(fn, test, accept=_callfree_or_len))
+        test = _fold_constants(fn, expand_aliases(fn, _expand_quantifiers(fn, test), accept=_callfree_or_len))
     v = _pe(test, last, assume_global)
     if v is _UNK:
         return None
     return True if v is _SOME else bool(v)
+
+
+def _expand_quantifiers(fn, test):
+    """`any(<test over x> for x in T)` / `all(...)` with T a foldable finite tuple of strings is the disjunction / conjunction
+    of the instances: rewritten so, so that a chain of comparisons and its comprehension form read alike."""
+    from ..dataflow import _clone
+
+    class Sub(ast.NodeTransformer):
+        def __init__(self, name, value):
+            self.name, self.value = name, value
+
+        def visit_Name(self, node):
+            if node.id == self.name and isinstance(node.ctx, ast.Load):
+                return ast.copy_location(ast.Constant(self.value), node)
+            return node
+    repl = {}
+    for c in ast.walk(test):
+        if isinstance(c, ast.Call) and isinstance(c.func, ast.Name) and c.func.id in ("any", "all") and len(c.args) == 1 \
+                and isinstance(c.args[0], (ast.GeneratorExp, ast.ListComp)) and len(c.args[0].generators) == 1:
+            gen = c.args[0].generators[0]
+            if gen.ifs or not isinstance(gen.target, ast.Name):
+                continue
+            vals = fold_in_fn(gen.iter, fn, default=None)
+            if not (isinstance(vals, (tuple, list, set, frozenset)) and vals and all(isinstance(v, str) for v in vals)) or len(vals) > 16:
+                continue
+            import copy
+            parts = [ast.fix_missing_locations(Sub(gen.target.id, v).visit(copy.deepcopy(c.args[0].elt))) for v in sorted(vals)]
+            repl[id(c)] = ast.BoolOp(ast.Or() if c.func.id == "any" else ast.And(), parts)
+    if not repl:
+        return test
+    return _clone(test, repl)
 
 
 def _callfree_or_len(e) -> bool:
